@@ -121,6 +121,15 @@ func TestC07(t *testing.T) {
 			locked := v.App.BankKeeper.LockedCoins(v.Ctx, from)
 			spendable := v.App.BankKeeper.SpendableCoins(v.Ctx, from)
 			to := v.NextFresh()
+			toExists := false
+			if len(accounts) > 1 && rapid.IntRange(0, 5).Draw(t, l+"_reuseRecipient") == 0 {
+				// a recipient that already exists (the recipient of an earlier split): must be refused, the
+				// new account would replace it
+				if cand := accounts[rapid.IntRange(0, len(accounts)-1).Draw(t, l+"_reuse")]; !cand.Equals(from) {
+					to, toExists = cand, true
+					classes["recipient_of_an_earlier_split_reused"] = true
+				}
+			}
 			kind := rapid.IntRange(0, 5).Draw(t, l+"_kind")
 			var msg sdk.Msg
 			var want sdk.Coins // exact reduction of locked coins expected
@@ -188,8 +197,19 @@ func TestC07(t *testing.T) {
 				want = sel
 				mustAccept = true
 			}
+			var toBefore []byte
+			if toExists {
+				mustAccept = false
+				toBefore = v.AccountBytes(to)
+			}
 			res := v.Run(msg)
-			hist = append(hist, fmt.Sprintf("now=%d %T from=%s want=%s locked=%s ok=%v err=%v", now.Unix(), msg, from, want, locked, res.OK(), res.Err))
+			hist = append(hist, fmt.Sprintf("now=%d %T from=%s to=%s(existed=%v) want=%s locked=%s ok=%v err=%v", now.Unix(), msg, from, to, toExists, want, locked, res.OK(), res.Err))
+			if toExists {
+				if res.OK() || string(v.AccountBytes(to)) != string(toBefore) {
+					t.Fatalf("a split/move into the existing vesting account %s was accepted=%v; its record changed=%v\nhistory: %s", to, res.OK(), string(v.AccountBytes(to)) != string(toBefore), jsonStr(hist))
+				}
+				continue
+			}
 			if !res.OK() {
 				if mustAccept {
 					t.Fatalf("a split/move of %s out of locked, undelegated %s was rejected: %v %v\nhistory: %s", want, locked, res.Err, res.Panic, jsonStr(hist))
